@@ -22,11 +22,11 @@ def _pos(p: Any) -> Dict[str, int]:
 class A(Adapter):
     name = "sliding_tile_puzzle"
     lean = "sliding_tile_puzzle"
-    serves = {"C04", "C05", "C08", "C09", "C10", "C11", "C12", "C17"}
+    serves = {"C01", "C04", "C05", "C08", "C09", "C10", "C11", "C12", "C17"}
     terminate_on_invalid = False
     max_steps = 40
     episode_cap = 520
-    ops = ("state", "step", "judge", "instance", "walk")
+    ops = ("state", "step", "judge", "instance", "walk", "bounds")
     state_fields = ["puzzle", "empty", "step_count"]
 
     def configs(self, tier):
